@@ -188,6 +188,68 @@ class HarnessGen:
         w('std::mem::forget(v); std::mem::forget(r);')
         w.close()
 
+    # ------------------------------------------------------------------ C06 inheritance coherence
+    def h_c06d(self, w: W, P: str, L: int):
+        """specialize() and Child::try_from(&parent) against the constraint oracle, parents decoded from all bytes"""
+        kids = self.m.children(P)
+        w(f'#[kani::proof]\n#[kani::unwind({self.unwind(L)})]')
+        w.open(f'fn c06d_{P}() {{')
+        w(f'let data: [u8; {L}] = kani::any();')
+        w('let n: usize = kani::any();')
+        w(f'kani::assume(n <= {L});')
+        w('let b: &[u8] = &data[..n];')
+        w(f'let p = match {P}::decode_full(b) {{ Ok(p) => p, Err(e) => {{ std::mem::forget(e); return; }} }};')
+        w(f'let rr = ref_decode_{P}(b);')
+        w('kani::assume(!rr.cap && rr.ok && rr.used == n);')
+        w(f'let (which, parse_ok) = ref_spec_{P}(&rr.v);')
+        w('kani::assume(which != -2);')
+        w('kani::cover!(which >= 0 && parse_ok, "accepting path");')
+        w.open('match p.specialize() {')
+        for k, X in enumerate(kids):
+            w(f'Ok({P}Child::{X}(c)) => {{ assert!(which == {k} && parse_ok, "C06: specialize returns a child whose constraints or payload do not match"); '
+              f'assert!(eq_{X}(&c, &ref_try_{P}_{X}(&rr.v).2), "C06: specialized child has different field values"); std::mem::forget(c); }}')
+        w(f'Ok({P}Child::None) => {{ assert!(which == -1, "C06: specialize returns None although a child matches"); }}')
+        w('Err(e) => { assert!(which >= 0 && !parse_ok, "C06: specialize fails although no child matches or the payload parses"); std::mem::forget(e); }')
+        w.close()
+        for k, X in enumerate(kids):
+            w(f'let t{k} = ref_try_{P}_{X}(&rr.v);')
+            w.open(f'match {X}::try_from(&p) {{')
+            w(f'Ok(c) => {{ assert!(t{k}.0 && t{k}.1, "C06: Child::try_from succeeds although a constraint is violated or the payload does not parse"); '
+              f'assert!(eq_{X}(&c, &t{k}.2), "C06: converted child has different field values"); std::mem::forget(c); }}')
+            w(f'Err(e) => {{ assert!(!(t{k}.0 && t{k}.1), "C06: Child::try_from fails although constraints hold and the payload parses"); '
+              f'assert!(t{k}.0 || matches!(e, DecodeError::ConstraintValueError {{ .. }}), "C06: violated constraint not reported as ConstraintValueError"); '
+              f'assert!(!t{k}.0 || !matches!(e, DecodeError::ConstraintValueError {{ .. }}), "C06: ConstraintValueError although no constraint is violated"); std::mem::forget(e); }}')
+            w.close()
+        w('std::mem::forget(p);')
+        w.close()
+
+    def h_c06v(self, w: W, X: str, L: int):
+        """for every child value c: Parent::try_from(&c) carries the constraint values, encodes to the bytes of c, converts back"""
+        P = self.m.decls[X].parent
+        cs = self.m.all_constraints(X)
+        pdata = {f.name: (dn, f) for dn, f in self.m.data_fields(P)}
+        w(f'#[kani::proof]\n#[kani::unwind({self.unwind_v()})]')
+        w.open(f'fn c06v_{X}() {{')
+        self._draw(w, X)
+        w('kani::assume(ef.count == 0);')
+        w(f'let c = match build_{X}(&rv) {{ Some(v) => v, None => return }};')
+        w(f'let p = match {P}::try_from(&c) {{ Ok(p) => p, Err(_) => {{ assert!(false, "C06: Parent::try_from fails on a well-formed child"); return; }} }};')
+        for k, v in cs.items():
+            if k in pdata:
+                f = pdata[k][1]
+                val = self.m.constraint_value(X, k, v)
+                w(f'assert!({self.rr._eq_scalarlike(f, "p." + k, f"{val:#x}u64")}, "C06: parent built from a child does not carry the constraint value");')
+        oc = self.rr.ocap
+        w(f'let mut a = ArrBuf::<{oc}>::new(); let mut b = ArrBuf::<{oc}>::new();')
+        w('let ra = p.encode(&mut a); let rb = c.encode(&mut b);')
+        w('assert!(ra.is_ok() && rb.is_ok(), "C06: encode fails on parent or child");')
+        w(f'kani::assume(b.len <= {self.rr.mcmp});')
+        w('assert!(bytes_eq_m(&a.buf, a.len, &b.buf, b.len), "C06: parent built from a child encodes to different bytes");')
+        w(f'match {X}::try_from(&p) {{ Ok(back) => {{ assert!(eq_{X}(&back, &rv), "C06: converting back yields a different child"); kani::cover!(true, "accepting path"); std::mem::forget(back); }} '
+          f'Err(e) => {{ assert!(false, "C06: converting the parent back to the child fails"); std::mem::forget(e); }} }}')
+        w('std::mem::forget(p); std::mem::forget(c); std::mem::forget(ra); std::mem::forget(rb);')
+        w.close()
+
     # ------------------------------------------------------------------ C16 static sizes
     static_octets = {}
 
